@@ -21,7 +21,7 @@
 From Coq Require Import Arith.
 From JT.Base Require Import Prelude GoSlice.
 From JT.Model Require Import Frame Mem MemAbs.
-From JT.Model Require Unpack Subpkg.
+From JT.Model Require Unpack Subpkg Reply.
 From JT.Proofs Require Import Mem_proofs Mem_refine.
 
 (* the content of a delivered message - raw frame bytes, body bytes, BCD phone bytes - is the same
@@ -58,6 +58,29 @@ Theorem C09_reply_from_own_bytes : forall bufsz evs k m, delivered_at cur bufsz 
   reply_at (p_heap (state_at cur bufsz evs j)) m rid ps body = encode (d_hdr m) rid ps body.
 Proof. exact reply_own_bytes. Qed.
 Print Assumptions C09_reply_from_own_bytes.
+
+(* ... and the WHOLE reply frame - ReplyBody of the handler kind evaluated on the message as it reads at
+   that time (Model/Reply.v reply_body: 0x8001 from serial and id, the register / authentication
+   answers, the 0x8800 multimedia id and the file answers read from the BODY), then Header.Encode -
+   is the same at every later time as right after delivery, for every delivered message (a
+   reassembled one included), handler kind, handler state, reply id and platform serial; for an
+   unfragmented message it is the frame computed from the message's own decoded values *)
+Theorem C09_reply_frame_stable : forall bufsz evs k m, delivered_at cur bufsz evs k m ->
+  forall j, (S k <= j)%nat -> forall kd s rid ps,
+  reply_frame_at (p_heap (state_at cur bufsz evs j)) m kd s rid ps =
+  reply_frame_at (p_heap (state_at cur bufsz evs (S k))) m kd s rid ps.
+Proof. exact reply_frame_stable. Qed.
+Print Assumptions C09_reply_frame_stable.
+
+Theorem C09_reply_frame_own : forall bufsz evs k m, delivered_at cur bufsz evs k m -> m_sum (d_hdr m) = 0 ->
+  forall j, (S k <= j)%nat -> forall kd s rid ps,
+  reply_frame_at (p_heap (state_at cur bufsz evs j)) m kd s rid ps =
+  match snd (Reply.reply_body kd s (d_hdr m)) with
+  | Some b => Some (encode (d_hdr m) rid ps b)
+  | None => None
+  end.
+Proof. exact reply_frame_own. Qed.
+Print Assumptions C09_reply_frame_own.
 
 (* reassembly works on the packets' own bytes: (1) completePack stores the packet's own Body slice
    in the slot of its number; (2) in every reachable state a stored slice keeps its content
@@ -139,3 +162,16 @@ Example C09_example_split_then_two :
   map (fun j => content (p_heap (state_at cur 1023 ex_reuse_evs j)) (delivered_nth cur 1023 ex_reuse_evs 1 0)) [2; 3]%nat
   = [(ex_f1, [1; 2; 3], m_bcd ex_hdr); (ex_f1, [1; 2; 3], m_bcd ex_hdr)].
 Proof. exact ex_cur_reuse. Qed.
+(* a two-packet transfer (packets in two reads), then another frame: the reassembled message is
+   delivered by event 1 and shows the concatenation right after delivery and after the next read *)
+Example C09_example_reassembly :
+  let hdr2 := {| m_id := 2049; m_len := 0; m_enc := 0; m_frag := 1; m_ver := 0; m_bcd := [1; 35; 69; 103; 137; 1];
+                 m_serial := 0; m_sum := 2; m_no := 0; m_body := []; m_check := 0 |} in
+  let pkt no body := let p := encode_payload hdr2 0 0 [] in
+                     escape (let q := [8; 1; 32; 2 + len body - 2; 1; 35; 69; 103; 137; 1; 0; no; 0; 2; 0; no] ++ body in q ++ [xor_all q]) in
+  let evs := [Read (pkt 1 [65; 66]) false 0; Read (pkt 2 [67; 68]) false 0; Read ex_f1 false 0] in
+  let cm := delivered_nth cur 1023 evs 1 1 in
+  d_complete cm = true /\
+  map (fun j => content (p_heap (state_at cur 1023 evs j)) cm) [2; 3]%nat =
+    [([65; 66; 67; 68], [65; 66; 67; 68], [1; 35; 69; 103; 137; 1]); ([65; 66; 67; 68], [65; 66; 67; 68], [1; 35; 69; 103; 137; 1])].
+Proof. vm_compute. split; reflexivity. Qed.
